@@ -152,6 +152,13 @@ func discharge(obls []*Obligation, scratch string, timeout int, thorough bool) *
 		}
 		wg.Wait()
 	}
+	// members of a failed batch get their own queries now (built on demand, single-threaded: the executor that
+	// builds them is not safe for concurrent use)
+	for _, o := range obls {
+		if o.lazy != nil && !o.batchDone {
+			o.lazy()
+		}
+	}
 	// reachability probes of one function: solved in order until the first reachable return
 	{
 		byFn := map[string][]*Obligation{}
